@@ -2,6 +2,7 @@ package main
 
 import (
 	"errors"
+	"strconv"
 	"strings"
 
 	"github.com/wollac/iota-crypto-demo/pkg/bech32"
@@ -57,6 +58,13 @@ func init() {
 			return bech32Err(err)
 		}
 		return "ok " + hx([]byte(hrp)) + " " + hx(data)
+	}
+	execs["utf8.starts"] = func(a []string) string {
+		var idx []string
+		for i := range string(unhx(a[0])) {
+			idx = append(idx, strconv.Itoa(i))
+		}
+		return "ok " + strings.Join(idx, ",")
 	}
 	gens["C04"] = genC04
 	gens["C05"] = genC05
@@ -126,6 +134,11 @@ func (g *G) hrp(n int) string {
 }
 
 func genC05(g *G) {
+	genStates(g, func(string) {}, func(hrp string, syms []byte) {
+		if len(syms)%8 == 0 {
+			g.emit("bech32.enc", hx([]byte(hrp)), hx(symsToBytes(syms)))
+		}
+	})
 	// all data lengths 0..51 x hrp lengths straddling the 90 limit
 	for dl := 0; dl <= 52; dl++ {
 		syms := (dl*8 + 4) / 5
@@ -170,7 +183,54 @@ func genC05(g *G) {
 	}
 }
 
+// genUTF8 exercises the model of `for i := range s` (Go.runeStarts) that the translated encoding.decode uses: strings
+// made of ASCII, well-formed 2/3/4-byte sequences, every boundary of the second-byte ranges, truncated sequences,
+// stray continuation bytes and bytes that never start a sequence.
+func genUTF8(g *G) {
+	pieces := [][]byte{
+		{0x41}, {0x7f}, {0x00}, {0xc2, 0x80}, {0xdf, 0xbf}, {0xe0, 0xa0, 0x80}, {0xe1, 0x80, 0x80}, {0xec, 0xbf, 0xbf},
+		{0xed, 0x9f, 0xbf}, {0xee, 0x80, 0x80}, {0xef, 0xbf, 0xbf}, {0xf0, 0x90, 0x80, 0x80}, {0xf1, 0x80, 0x80, 0x80},
+		{0xf3, 0xbf, 0xbf, 0xbf}, {0xf4, 0x8f, 0xbf, 0xbf}, {0xe2, 0x84, 0xaa},
+		// ill-formed: out-of-range second bytes, overlong forms, surrogates, too large, bad lead bytes
+		{0xe0, 0x9f, 0x80}, {0xed, 0xa0, 0x80}, {0xf0, 0x8f, 0x80, 0x80}, {0xf4, 0x90, 0x80, 0x80}, {0xc0, 0x80}, {0xc1, 0xbf},
+		{0xf5, 0x80, 0x80, 0x80}, {0xff}, {0xfe}, {0x80}, {0xbf}, {0xc2}, {0xc2, 0x7f}, {0xc2, 0xc0}, {0xe1, 0x80}, {0xe1, 0x80, 0x7f},
+		{0xe1, 0x80, 0xc0}, {0xf1, 0x80, 0x80}, {0xf1, 0x80, 0x80, 0x7f}, {0xf1, 0x80, 0x80, 0xc0}, {0xf1, 0x7f}, {0xe1, 0xc0},
+	}
+	for _, p := range pieces {
+		g.emit("utf8.starts", hx(p))
+	}
+	g.emit("utf8.starts", hx(nil))
+	n := 400
+	if g.thorough {
+		n = 6000
+	}
+	for k := 0; k < n; k++ {
+		var s []byte
+		for c := g.r.intn(6); c >= 0; c-- {
+			switch g.r.intn(4) {
+			case 0:
+				s = append(s, g.r.bytes(1+g.r.intn(3))...)
+			case 1:
+				p := pieces[g.r.intn(len(pieces))]
+				s = append(s, p[:1+g.r.intn(len(p))]...) // possibly truncated
+			default:
+				s = append(s, pieces[g.r.intn(len(pieces))]...)
+			}
+		}
+		g.emit("utf8.starts", hx(s))
+	}
+	// every two-byte string whose first byte is not ASCII (thorough), sampled otherwise
+	for a := 0x80; a < 0x100; a++ {
+		for b := 0; b < 0x100; b++ {
+			if g.thorough || g.r.intn(16) == 0 {
+				g.emit("utf8.starts", hx([]byte{byte(a), byte(b), 0x41}))
+			}
+		}
+	}
+}
+
 func genC04(g *G) {
+	genUTF8(g)
 	emit := func(s string) { g.emit("bech32.dec", hx([]byte(s))) }
 	// every 5-bit symbol sequence length 0..84 with a correct checksum: all padding patterns of the last symbol
 	for n := 0; n <= 84; n++ {
@@ -323,7 +383,174 @@ func syndromePatterns(window int, wanted []uint32) map[uint32][][2][2]int {
 	return out
 }
 
+// solve6 returns the six 5-bit symbols s with polymodLinear(s) == want (the map is a linear bijection on 30 bits).
+func solve6(want uint32) [6]byte {
+	// basis: bit b of symbol p
+	var cols [30]uint32
+	for p := 0; p < 6; p++ {
+		for b := 0; b < 5; b++ {
+			var v [6]byte
+			v[p] = 1 << uint(b)
+			cols[p*5+b] = polymodLinear(v[:])
+		}
+	}
+	// Gaussian elimination over GF(2): find x with XOR of cols[i] (x_i = 1) == want
+	type row struct {
+		val  uint32
+		comb uint32 // which columns were combined
+	}
+	var piv [30]*row
+	for i := 0; i < 30; i++ {
+		r := row{cols[i], 1 << uint(i)}
+		for bit := 29; bit >= 0; bit-- {
+			if r.val>>uint(bit)&1 == 0 {
+				continue
+			}
+			if piv[bit] == nil {
+				rr := r
+				piv[bit] = &rr
+				break
+			}
+			r.val ^= piv[bit].val
+			r.comb ^= piv[bit].comb
+		}
+	}
+	var comb uint32
+	for bit := 29; bit >= 0; bit-- {
+		if want>>uint(bit)&1 == 1 {
+			if piv[bit] == nil {
+				panic("solve6: not a bijection")
+			}
+			want ^= piv[bit].val
+			comb ^= piv[bit].comb
+		}
+	}
+	var out [6]byte
+	for i := 0; i < 30; i++ {
+		if comb>>uint(i)&1 == 1 {
+			out[i/5] |= 1 << uint(i%5)
+		}
+	}
+	return out
+}
+
+// hrpExpandRef is the checksum input for the (lower-case) human-readable part.
+func hrpExpandRef(low string) []byte {
+	var v []byte
+	for i := 0; i < len(low); i++ {
+		v = append(v, low[i]>>5)
+	}
+	v = append(v, 0)
+	for i := 0; i < len(low); i++ {
+		v = append(v, low[i]&31)
+	}
+	return v
+}
+
+// statePrefixes returns human-readable parts (length n >= 7, characters 0x60..0x7e) after whose expansion the checksum
+// accumulator has the value `target` — 0, 1, all ones: values an implementation that carries the accumulator from part
+// to part could confuse with "not started" or mishandle.
+func statePrefixes(g *G, n int, target uint32, count int) []string {
+	var out []string
+	for tries := 0; len(out) < count && tries < 200; tries++ {
+		b := make([]byte, n)
+		for i := range b {
+			b[i] = byte('a' + g.r.intn(26))
+		}
+		for i := n - 6; i < n; i++ {
+			b[i] = 0x60 // low five bits zero
+		}
+		base := polymodRef(hrpExpandRef(string(b)))
+		s := solve6(base ^ target)
+		ok := true
+		for i := 0; i < 6; i++ {
+			if s[i] == 31 {
+				ok = false // 0x7f is not a valid character of the human-readable part
+			}
+			b[n-6+i] = 0x60 | s[i]
+		}
+		if ok && polymodRef(hrpExpandRef(string(b))) == target {
+			out = append(out, string(b))
+		}
+	}
+	return out
+}
+
+// stateData returns data symbols (length n >= 6) after which the accumulator for the given prefix has the value target.
+func stateData(g *G, hrp string, n int, target uint32) []byte {
+	syms := make([]byte, n)
+	for i := 0; i < n-6; i++ {
+		syms[i] = byte(g.r.intn(32))
+	}
+	base := polymodRef(append(hrpExpandRef(strings.ToLower(hrp)), syms...))
+	s := solve6(base ^ target)
+	copy(syms[n-6:], s[:])
+	return syms
+}
+
+// genStates: code words whose checksum computation passes through a distinguished accumulator value at a part boundary
+// (after the human-readable part, after the data symbols), and the neighbouring strings obtained by the substitution
+// that moves the accumulator between 0 and 1 there.
+func genStates(g *G, emitDec func(string), emitEnc func(hrp string, syms []byte)) {
+	per := 2
+	if g.thorough {
+		per = 6
+	}
+	for _, target := range []uint32{0, 1, 0x3fffffff, 2, 1 << 29, 0x2bc830a3} {
+		for _, hl := range []int{7, 8, 12, 30} {
+			for _, hrp := range statePrefixes(g, hl, target, per) {
+				for _, dn := range []int{0, 1, 8, 20} {
+					if len(hrp)+7+dn > 90 {
+						continue
+					}
+					syms := make([]byte, dn)
+					for i := range syms {
+						syms[i] = byte(g.r.intn(32))
+					}
+					w := withChecksum(hrp, syms)
+					emitDec(w)
+					emitEnc(hrp, syms)
+					// the same data part under the neighbouring prefix (last character, lowest bit)
+					nb := []byte(w)
+					nb[len(hrp)-1] ^= 1
+					if nb[len(hrp)-1] >= 0x60 && nb[len(hrp)-1] < 0x7f {
+						emitDec(string(nb))
+					}
+				}
+			}
+		}
+		// the accumulator reaches the value after the data symbols
+		for k := 0; k < per; k++ {
+			hrp := g.hrp(1 + g.r.intn(6))
+			if hrp != strings.ToLower(hrp) && hrp != strings.ToUpper(hrp) {
+				continue
+			}
+			for _, dn := range []int{8, 16, 40} { // multiples of 8 symbols: whole bytes, no padding
+				syms := stateData(g, hrp, dn, target)
+				emitDec(withChecksum(hrp, syms))
+				emitEnc(hrp, syms)
+			}
+		}
+	}
+}
+
+// symsToBytes packs 5-bit symbols (a multiple of 8 of them) into bytes.
+func symsToBytes(syms []byte) []byte {
+	var out []byte
+	acc, bits := 0, 0
+	for _, s := range syms {
+		acc = acc<<5 | int(s)
+		bits += 5
+		for bits >= 8 {
+			out = append(out, byte(acc>>uint(bits-8)))
+			bits -= 8
+		}
+	}
+	return out
+}
+
 func genC16Targeted(g *G) {
+	genStates(g, func(s string) { g.emit("bech32.dec", hx([]byte(s))) }, func(string, []byte) {})
 	window := 24
 	if g.thorough {
 		window = 40
